@@ -13,7 +13,7 @@ Section CoreRun.
   Variable AND : bool.
 
   Lemma do_action_frozen s l a : frozen mx (do_action q blanks AND s l a) = frozen mx s.
-  Proof. destruct a as [? ?|? ?|? ?|? ?|? ?|g]; cbn; try (destruct (rev _)); cbn; auto. destruct g; cbn; try (destruct (dget _ _ _) as [[]|]); try (destruct (is_blank_text _)); cbn; auto. Qed.
+  Proof. destruct a as [? ?|? ?|? ?|? ?|? ?|? ?|g]; cbn; try (destruct (rev _)); cbn; auto. destruct g; cbn; try (destruct (dget _ _ _) as [[]|]); try (destruct (is_blank_text _)); cbn; auto. Qed.
   Lemma eval_frozen c s l : frozen mx (fst (eval q blanks AND c s l)) = frozen mx s.
   Proof.
     destruct c as [b|a|b a|g]; cbn; auto using do_action_frozen.
@@ -91,10 +91,10 @@ Section CoreRun.
     intros Hw key. unfold writes_comp in Hw.
     destruct c as [b|a|b a|g]; cbn [eval comp_agg] in *.
     - reflexivity.
-    - destruct a as [? ?|? ?|? ?|? ?|? ?|g]; try (cbn [fst]; unfold dget; rewrite do_action_dicts; [reflexivity|discriminate]).
+    - destruct a as [? ?|? ?|? ?|? ?|? ?|? ?|g]; try (cbn [fst]; unfold dget; rewrite do_action_dicts; [reflexivity|discriminate]).
       cbn [fst do_action]. apply do_agg_frame. exact Hw.
     - destruct (beval q blanks s l b); [|reflexivity].
-      destruct a as [? ?|? ?|? ?|? ?|? ?|g]; try (cbn [fst]; unfold dget; rewrite do_action_dicts; [reflexivity|discriminate]).
+      destruct a as [? ?|? ?|? ?|? ?|? ?|? ?|g]; try (cbn [fst]; unfold dget; rewrite do_action_dicts; [reflexivity|discriminate]).
       cbn [fst do_action]. apply do_agg_frame. exact Hw.
     - apply do_agg_frame. exact Hw.
   Qed.
@@ -205,12 +205,13 @@ Section CoreRun.
   Lemma do_action_frame_var s l a v : (match a with AssignN w _ | AssignS w _ | Pop w _ => w <> v | Agg (Counter w _) | Agg (Sum w _) | Agg (CounterE w _) | Agg (CounterEq w _ _) | Agg (CountIf w _ _) => w <> v | _ => True end) ->
     lookup v (vars (x mx (do_action q blanks AND s l a))) = lookup v (vars (x mx s)).
   Proof.
-    intros Hw. destruct a as [w e|w e|k e|k e|w k|g]; cbn [do_action].
+    intros Hw. destruct a as [w e|w e|k e|k e|w k|k e|g]; cbn [do_action].
     - cbn [x with_mx vars]. apply lookup_update_other. exact Hw.
     - cbn [x with_mx vars]. apply lookup_update_other. exact Hw.
     - reflexivity.
     - reflexivity.
     - destruct (rev _); cbn [x with_mx vars]; apply lookup_update_other; exact Hw.
+    - reflexivity.
     - apply do_agg_frame_var. destruct g; try exact I; exact Hw.
   Qed.
 
@@ -218,10 +219,10 @@ Section CoreRun.
   Proof.
     intros Hw. destruct c as [b|a|b a|g]; cbn [eval].
     - reflexivity.
-    - cbn [fst]. apply do_action_frame_var. destruct a as [w e|w e|k e|k e|w k|g]; try exact I; try (intros E0; apply Hw; cbn; rewrite E0; reflexivity).
+    - cbn [fst]. apply do_action_frame_var. destruct a as [w e|w e|k e|k e|w k|k e|g]; try exact I; try (intros E0; apply Hw; cbn; rewrite E0; reflexivity).
       destruct g; try exact I; intros E0; apply Hw; cbn; rewrite E0; reflexivity.
     - destruct (beval q blanks s l b); [|reflexivity]. cbn [fst]. apply do_action_frame_var.
-      destruct a as [w e|w e|k e|k e|w k|g]; try exact I; try (intros E0; apply Hw; cbn; rewrite E0; reflexivity).
+      destruct a as [w e|w e|k e|k e|w k|k e|g]; try exact I; try (intros E0; apply Hw; cbn; rewrite E0; reflexivity).
       destruct g; try exact I; intros E0; apply Hw; cbn; rewrite E0; reflexivity.
     - apply do_agg_frame_var. destruct g; try exact I; intros E0; apply Hw; cbn; rewrite E0; reflexivity.
   Qed.
@@ -246,7 +247,7 @@ Section CoreRun.
   Proof.
     unfold init_vars. induction cs as [|c cs IH]; intros vs; [reflexivity|]. cbn [fold_left]. rewrite IH.
     unfold comp_init. destruct c as [b|a|b a|g]; try reflexivity;
-      try (destruct a as [? ?|? ?|? ?|? ?|? ?|g]; try reflexivity);
+      try (destruct a as [? ?|? ?|? ?|? ?|? ?|? ?|g]; try reflexivity);
       (destruct g as [i|nm i|nm i n|nm k|nm e|nm i e|nm key' e|i|i j|nm e|nm k0 n0|v0 nm c0]; try reflexivity; cbn [agg_init]; destruct (lookup nm vs); first [reflexivity|apply lookup_app_num]).
   Qed.
 
